@@ -52,6 +52,7 @@ THEOREMS = [
 ]
 
 WORKERS = 8
+RENDER_OK = "render/parse inverse (Dec.value = Spec.parseChars = fortranFloat of the laid-out text; validated, not proved)"
 FLOAT_BRANCH = {"e": "sci", "f": "fixed", "g": "general"}
 
 
@@ -773,6 +774,8 @@ def run(chk):
             else:
                 chk.count("flaky:pyformat")
         else:
+            if rm.get("render_ok") is False:
+                chk.broken_obligation("correspondence", RENDER_OK, {"text": ti}, case)
             # the model's text read by the Spec must be what the independent reader reads
             y = nf.read_fortran(nf.first_word(ti))
             if nf.unrat(rm.get("spec")) != y:
@@ -889,6 +892,8 @@ def run(chk):
                 vv = judge_node(mc, rr)
                 chk.violation(sig, vv[2] if vv else verdict[2], {"case": mc, "impl": rr})
                 continue
+        if rm is not None and rm.get("init") == "ok" and any(o.get("render_ok") is False for o in rm["outs"]):
+            chk.broken_obligation("correspondence", RENDER_OK, {"model": rm}, case)
         if rm is not None:
             chk.traces_validated += 1
             a, b = node_texts(ri), node_texts(rm)
